@@ -109,6 +109,7 @@ type finding struct {
 	kind     string // finding | fixed
 	property string
 	pattern  string
+	exact    string
 	text     string
 }
 
@@ -145,6 +146,11 @@ func loadFindings(path string) []finding {
 			if v, ok := strings.CutPrefix(w, "signature="); ok {
 				fd.pattern = v
 			}
+
+			// exact=<signature with ~ for spaces>: literal comparison (signatures may contain glob metacharacters)
+			if v, ok := strings.CutPrefix(w, "exact="); ok {
+				fd.exact = strings.ReplaceAll(v, "~", " ")
+			}
 		}
 
 		res = append(res, fd)
@@ -156,7 +162,15 @@ func loadFindings(path string) []finding {
 func matchFinding(fs []finding, v Violation) *finding {
 	for i := range fs {
 		f := &fs[i]
-		if f.kind != "finding" || f.property != v.Property || f.pattern == "" {
+		if f.kind != "finding" || f.property != v.Property {
+			continue
+		}
+
+		if f.exact != "" && f.exact == v.Signature {
+			return f
+		}
+
+		if f.pattern == "" {
 			continue
 		}
 
@@ -351,7 +365,8 @@ func Coordinate(p *Prop, tier string, verifDir string, workers int) int {
 			cmd.Env = append(os.Environ(), "GOMAXPROCS=1")
 
 			if p.Race {
-				cmd.Env = append(cmd.Env, "GORACE=halt_on_error=1 exitcode=66")
+				logp := filepath.Join(tmp, fmt.Sprintf("race%d", i))
+				cmd.Env = append(cmd.Env, "GORACE=halt_on_error=0 exitcode=0 suppress_equal_stacks=0 suppress_equal_addresses=0 log_path="+logp, "VERIF_RACE_LOG="+logp)
 			}
 
 			var eb strings.Builder
